@@ -51,6 +51,17 @@ func checkSegmentsBig(t []byte, minLen, maxLen int, libLCP bool, r *rand.Rand, s
 		for i := range lcp2 {
 			lcp2[i] = -9
 		}
+		// (an unrelated, longer text goes through the same functions first:
+		// whatever they keep between calls is in use)
+		warm := make([]byte, n+n/8+100)
+		for i := range warm {
+			warm[i] = 'a' + byte((i*i/7+i)%3)
+		}
+		call(func() {
+			wsa, wl := make([]int32, len(warm)), make([]int32, len(warm))
+			suffix.Sort(warm, wsa)
+			suffix.LCP(warm, wsa, nil, wl)
+		})
 		if pv := call(func() { suffix.LCP(t, sa2, nil, lcp2) }); pv != nil {
 			return "pipeline-panic", fmt.Sprintf("suffix.LCP panics on %d bytes: %v", n, pv)
 		}
